@@ -277,6 +277,9 @@ func c17prop(r *simkit.Run) {
 			}
 		case "step":
 			d := drawStep(rt, n, res)
+			if now()+d > 200*365*24*time.Hour {
+				break // instants are measured as time.Duration since the epoch of the run, which holds 292 years
+			}
 			if d > time.Duration(n)*res {
 				gaps++
 			}
